@@ -97,18 +97,18 @@ def run_config(chk, config):
             evs = b.events()[n0:]
             mine = [e for e in evs if e[0] in ("read", "skip", "bytes", "sub") and e[1] == "reader.*"]
             rdb = b.cells.get(("obj", "reader"))
-            if len(mine) != 5 or [e[0] for e in mine[:4]] != ["read"] * 4 or mine[4][0] not in ("skip", "bytes", "sub"):
-                info["probs"].append("an iteration touches the region reader as %s (expected 4 header reads + one payload carve)" % [e[0] for e in mine])
+            hreads = [e for e in mine[:-1]]
+            hview = AvpHeaderView(eng, b, hreads) if all(e[0] == "read" for e in hreads) else None
+            if hview is None or not hview.ok or sum(e[2] for e in hreads) != 6 or mine[-1][0] not in ("skip", "bytes", "sub"):
+                info["probs"].append("an iteration touches the region reader as %s (expected the 6 header octets read + one payload carve)" % [e[0] for e in mine])
                 continue
-            o1, o2 = mine[0][3], mine[1][3]
-            q, r = eng.divmod_const(b, o1.lin, 64)
-            total = q.scale(256) + o2.lin
-            carve = mine[4][2]
+            total = hview.total
+            carve = mine[-1][2]
             if not eng.ent(b, c_eq(carve.lin + 6, total)):
                 info["probs"].append("payload carve of %r octets differs from the AVP length field minus 6" % (carve.lin,))
             if not (isinstance(rdb, VReader) and isinstance(rdh, VReader) and eng.ent(b, c_eq(rdh.L - rdb.L, total))):
                 info["probs"].append("an iteration does not consume exactly the AVP's own length")
-            if mine[4][0] == "bytes" and not mine[4][4]:
+            if mine[-1][0] == "bytes" and not mine[-1][4]:
                 info["probs"].append("hidden payload request can fail")
     eng.hooks["loop"] = on_loop
     eng.analyse(a.avp_greedy["key"], name="AVP::try_read_greedy[%s]" % config)
